@@ -155,3 +155,15 @@ Example C14_error_balance_example :
                NText (slit "["); ex_out "x"; ex_out "y"; NText (slit "]")])
   = Ok (slit "1[]").
 Proof. vm_compute. reflexivity. Qed.
+
+(* include shares the caller's scope (reads the with-bound x and the local y, its assignment to z survives);
+   the hypotheses of the two include theorems hold in such a run *)
+Example C14_include_example :
+  run_case (Case MStrict UDefault [(slit "p", [ex_out "x"; ex_out "y"; ex_assign "z" "pz"])] [] [] [] []
+              [ex_assign "y" "ly"; NWith [(slit "x", ELit (LStr (slit "wx")))] [NInclude (slit "p") None []]; ex_out "z"; ex_out "x"])
+  = Ok (slit "wxlypz").
+Proof. vm_compute. reflexivity. Qed.
+
+Example C14_global_layers_hypothesis :
+  NoDup (map fst (k_tglobals (Case MStrict UDefault [] [] [] [(slit "m", VInt 1); (slit "t", VInt 2)] [] []))).
+Proof. repeat constructor; simpl; intuition discriminate. Qed.
